@@ -145,12 +145,14 @@ impl Ctx {
         self.count("cases", 1);
         // environment
         self.env = None;
+        let first_decls: Vec<String>;
         match guarded(decls) {
             Err(p) => {
                 self.violation("declaration-panics", json!({"panic": p}));
                 return;
             }
             Ok(ds) => {
+                first_decls = ds.clone();
                 let mut env = Env::new();
                 for d in ds {
                     match tsmodel::parse_decl(&d) {
@@ -171,6 +173,16 @@ impl Ctx {
         }
         if let Err(p) = guarded(|| body(self)) {
             self.violation("binding-function-panics", json!({"panic": p}));
+        }
+        // a declaration is a function of the type alone: asked again after everything the body asked of
+        // other instantiations, it is the same text
+        match guarded(decls) {
+            Ok(again) if again == first_decls => {}
+            Ok(again) => {
+                let diff: Vec<_> = first_decls.iter().zip(again.iter()).filter(|(a, b)| a != b).take(2).collect();
+                self.violation("declaration-differs-when-asked-again", json!({"first_then_again": diff}));
+            }
+            Err(p) => self.violation("declaration-panics", json!({"panic": p, "when": "asked again"})),
         }
         if self.rep.samples.len() < 5 && self.case_no % 37 == 1 {
             self.rep
